@@ -1,3 +1,882 @@
-pub fn main(_ctx: &vcore::Ctx) {
-    std::process::exit(2)
+//! C32: status-condition trigger values and WaitSet wake-ups under tape-scheduled interleavings.
+//!
+//! Entities: writer W (participant A); readers R1 (reliable, unlimited) and R2 (best effort,
+//! max_samples = 1, so arrivals are rejected while a sample is held) under one subscriber S
+//! (participant B). 1-3 of the status conditions of {R1, R2, W, S} are attached to 1-2 wait sets.
+//! The application task executes a generated sequence of operations one at a time (raise events,
+//! set_enabled_statuses, clearing reads, time advances) and starts `wait(timeout)` calls as
+//! concurrent tasks; the executor's schedule tape permutes the run queue around every operation.
+//!
+//! Reference model (transcribed from DDS 1.4 2.2.4.1): per (entity, status) a changed-flag that is
+//! set by a raise and reset by the read that the specification names; trigger = OR over the enabled
+//! statuses. Raises whose instant is only known up to an interval (deadline detection within one
+//! worker tick, discovery) make the flag three-valued; only definite values are judged.
+
+use std::collections::{BTreeMap, BTreeSet};
+
+use dust_dds::{
+    dds_async::{
+        condition::StatusConditionAsync,
+        wait_set::{ConditionAsync, WaitSetAsync},
+    },
+    infrastructure::{
+        error::DdsError,
+        listener::NO_LISTENER,
+        qos::{DataReaderQos, DataWriterQos, QosKind},
+        qos_policy::{
+            DeadlineQosPolicy, HistoryQosPolicy, HistoryQosPolicyKind, Length, ReliabilityQosPolicy,
+            ReliabilityQosPolicyKind, ResourceLimitsQosPolicy,
+        },
+        sample_info::{ANY_INSTANCE_STATE, ANY_SAMPLE_STATE, ANY_VIEW_STATE},
+        status::{NO_STATUS, StatusKind},
+        time::DurationKind,
+    },
+};
+use proptest::prelude::*;
+use serde::{Deserialize, Serialize};
+use serde_json::json;
+use sim::{
+    case::{CaseResult, apply_abort, sim_stats},
+    exec::{self, JoinHandle, with_world},
+    props::{Campaign, campaign},
+    types::KeyedData,
+    util::{Timed, dk_ms, timeout, wait_until},
+};
+use vcore::{Ctx, Meta, fork::Limits};
+
+use crate::common::{MS, St, choose_verdict, factory, mask_kinds};
+
+#[derive(Clone, Copy, Debug, PartialEq, Eq, PartialOrd, Ord, Serialize, Deserialize)]
+pub enum Ent {
+    R1,
+    R2,
+    W,
+    S,
+}
+
+impl Ent {
+    fn statuses(self) -> &'static [St] {
+        match self {
+            Ent::R1 | Ent::R2 => &[St::DataAvailable, St::SubscriptionMatched, St::RequestedDeadlineMissed, St::SampleRejected],
+            Ent::W => &[St::PublicationMatched, St::OfferedDeadlineMissed],
+            Ent::S => &[St::DataOnReaders],
+        }
+    }
+    fn valid_mask(self) -> u16 {
+        self.statuses().iter().map(|s| s.bit()).sum()
+    }
+    /// a status this kind of entity can never raise, enabled permanently so that a condition returned by
+    /// `wait` can be told apart through `get_enabled_statuses` (get_entity is not implemented)
+    fn tag(self) -> StatusKind {
+        match self {
+            Ent::R1 => StatusKind::LivelinessLost,
+            Ent::R2 => StatusKind::OfferedIncompatibleQos,
+            Ent::W => StatusKind::SampleLost,
+            Ent::S => StatusKind::PublicationMatched,
+        }
+    }
+    fn name(self) -> &'static str {
+        match self {
+            Ent::R1 | Ent::R2 => "reader",
+            Ent::W => "writer",
+            Ent::S => "subscriber",
+        }
+    }
+}
+
+#[derive(Clone, Debug, Serialize, Deserialize)]
+pub enum Op {
+    StartWait { ws: u8, timeout_ms: u16 },
+    Write,
+    /// a second writer appears / disappears: SUBSCRIPTION_MATCHED changes on R1 and R2
+    CreateW2,
+    DeleteW2,
+    /// a third reader (other subscriber) appears / disappears: PUBLICATION_MATCHED changes on W
+    CreateR3,
+    DeleteR3,
+    SetEnabled { cond: u8, mask: u16 },
+    Take { r2: bool },
+    Read { r2: bool },
+    GetSubMatched { r2: bool },
+    GetPubMatched,
+    GetOfferedDeadline,
+    Advance { ms: u16 },
+}
+
+#[derive(Clone, Debug, Serialize, Deserialize)]
+pub struct C32Case {
+    /// (entity, initially enabled statuses as a bit mask over `St`)
+    pub conds: Vec<(Ent, u16)>,
+    /// per wait set: indices into `conds`
+    pub waitsets: Vec<Vec<u8>>,
+    /// offered deadline of W and requested deadline of R1, in units of 100 ms
+    pub deadline: Option<u16>,
+    pub ops: Vec<Op>,
+    /// run-queue choices, consumed in chunks of 16 per operation
+    pub tape: Vec<u16>,
+}
+
+const CHUNK: usize = 16;
+
+fn submask(valid: u16) -> BoxedStrategy<u16> {
+    prop_oneof![
+        2 => any::<u16>().prop_map(move |m| m & valid),
+        1 => Just(valid),
+        1 => Just(0u16),
+    ]
+    .boxed()
+}
+
+pub fn strategy(thorough: bool) -> BoxedStrategy<C32Case> {
+    let max_ops = if thorough { 30 } else { 14 };
+    let ents = prop::sample::subsequence(vec![Ent::R1, Ent::R2, Ent::W, Ent::S], 1..=3);
+    (ents, prop::option::weighted(0.5, 2u16..=8))
+        .prop_flat_map(move |(ents, deadline)| {
+            let n = ents.len();
+            let conds: Vec<BoxedStrategy<(Ent, u16)>> = ents.iter().map(|e| (Just(*e), submask(e.valid_mask())).boxed()).collect();
+            let idx: Vec<u8> = (0..n as u8).collect();
+            let ws = prop::collection::vec(prop::sample::subsequence(idx, 1..=n), 1..=2);
+            let ents2 = ents.clone();
+            let set_enabled = (0..n).prop_flat_map(move |i| (Just(i as u8), submask(ents2[i].valid_mask()))).prop_map(|(cond, mask)| Op::SetEnabled { cond, mask });
+            let timeouts = prop_oneof![Just(20u16), Just(100), Just(300), Just(1000), Just(2000)];
+            let op = prop_oneof![
+                5 => (0u8..2, timeouts).prop_map(|(ws, timeout_ms)| Op::StartWait { ws, timeout_ms }),
+                5 => Just(Op::Write),
+                1 => Just(Op::CreateW2),
+                1 => Just(Op::DeleteW2),
+                1 => Just(Op::CreateR3),
+                1 => Just(Op::DeleteR3),
+                5 => set_enabled,
+                2 => any::<bool>().prop_map(|r2| Op::Take { r2 }),
+                1 => any::<bool>().prop_map(|r2| Op::Read { r2 }),
+                1 => any::<bool>().prop_map(|r2| Op::GetSubMatched { r2 }),
+                1 => Just(Op::GetPubMatched),
+                1 => Just(Op::GetOfferedDeadline),
+                3 => prop_oneof![Just(1u16), Just(30), Just(60), Just(250), 1u16..1200].prop_map(|ms| Op::Advance { ms }),
+            ];
+            (
+                conds,
+                ws,
+                Just(deadline),
+                prop::collection::vec(op, 1..=max_ops),
+                prop::collection::vec(prop_oneof![1 => Just(0u16), 3 => any::<u16>()], 0..(max_ops * CHUNK)),
+            )
+        })
+        .prop_map(|(conds, waitsets, deadline, ops, tape)| C32Case { conds, waitsets, deadline, ops, tape })
+        .boxed()
+}
+
+// ------------------------------------------------------------------------------------------
+// history
+
+#[derive(Clone, Debug, Serialize, Deserialize)]
+pub enum Ev {
+    /// exact raise of a status on an entity
+    Raise { ent: Ent, st: St },
+    /// raise somewhere in [t, t + len_ns]
+    RaiseWithin { ent: Ent, st: St, len_ns: u64 },
+    Clear { ent: Ent, st: St },
+    Mask { cond: u8, mask: u16 },
+    /// a sample of the (single) instance was written / received: deadline timelines
+    Sample,
+    /// trigger values read back for every condition
+    Check { values: Vec<Option<bool>> },
+}
+
+#[derive(Clone, Debug, Serialize, Deserialize)]
+pub struct WaitRec {
+    pub ws: u8,
+    pub start_ns: u64,
+    /// number of history events recorded before the call (orders the call among events of its instant)
+    pub start_idx: usize,
+    pub timeout_ms: u16,
+    pub done_ns: Option<u64>,
+    /// Ok(indices into conds of the returned conditions; 255 = not identifiable), Err("timeout" | error)
+    pub result: Result<Vec<u8>, String>,
+}
+
+#[derive(Clone, Debug, Default, Serialize, Deserialize)]
+pub struct Hist {
+    pub setup_error: Option<String>,
+    pub t0: u64,
+    pub events: Vec<(u64, Ev)>,
+    pub waits: Vec<WaitRec>,
+    pub end_ns: u64,
+}
+
+/// discovery: a create/delete of a matching endpoint is reflected within this time
+const MATCH_NS: u64 = 60 * MS;
+/// a deadline boundary is detected within one worker tick (+ slack)
+const DETECT_NS: u64 = 51 * MS;
+
+fn tag_index(conds: &[(Ent, u16)], enabled: &[StatusKind]) -> u8 {
+    for (i, (e, _)) in conds.iter().enumerate() {
+        if enabled.contains(&e.tag()) {
+            return i as u8;
+        }
+    }
+    255
+}
+
+async fn scenario(c: C32Case) -> Hist {
+    let mut h = Hist::default();
+    let f = factory();
+    let deadline = DeadlineQosPolicy { period: c.deadline.map(|p| dk_ms(p as u64 * 100)).unwrap_or(DurationKind::Infinite) };
+    let reliable = ReliabilityQosPolicy { kind: ReliabilityQosPolicyKind::Reliable, max_blocking_time: dk_ms(100) };
+    let keep_all = HistoryQosPolicy { kind: HistoryQosPolicyKind::KeepAll };
+    let pa = f.create_participant(0, QosKind::Default, NO_LISTENER, NO_STATUS).await.unwrap();
+    let ta = pa.create_topic::<KeyedData>("T", "KeyedData", QosKind::Default, NO_LISTENER, NO_STATUS).await.unwrap();
+    let publ = pa.create_publisher(QosKind::Default, NO_LISTENER, NO_STATUS).await.unwrap();
+    let wq = DataWriterQos { reliability: reliable.clone(), history: keep_all.clone(), deadline: deadline.clone(), ..Default::default() };
+    let w = publ.create_datawriter::<KeyedData>(&ta, QosKind::Specific(wq.clone()), NO_LISTENER, NO_STATUS).await.unwrap();
+    let pb = f.create_participant(0, QosKind::Default, NO_LISTENER, NO_STATUS).await.unwrap();
+    let tb = pb.create_topic::<KeyedData>("T", "KeyedData", QosKind::Default, NO_LISTENER, NO_STATUS).await.unwrap();
+    let sub = pb.create_subscriber(QosKind::Default, NO_LISTENER, NO_STATUS).await.unwrap();
+    let sub2 = pb.create_subscriber(QosKind::Default, NO_LISTENER, NO_STATUS).await.unwrap();
+    let r1q = DataReaderQos { reliability: reliable.clone(), history: keep_all.clone(), deadline: deadline.clone(), ..Default::default() };
+    let r2q = DataReaderQos {
+        reliability: ReliabilityQosPolicy { kind: ReliabilityQosPolicyKind::BestEffort, max_blocking_time: dk_ms(100) },
+        history: keep_all.clone(),
+        resource_limits: ResourceLimitsQosPolicy {
+            max_samples: Length::Limited(1),
+            max_instances: Length::Unlimited,
+            max_samples_per_instance: Length::Limited(1),
+        },
+        ..Default::default()
+    };
+    let r3q = DataReaderQos { reliability: reliable.clone(), history: keep_all.clone(), ..Default::default() };
+    let r1 = sub.create_datareader::<KeyedData>(&tb, QosKind::Specific(r1q), NO_LISTENER, NO_STATUS).await.unwrap();
+    let r2 = match sub.create_datareader::<KeyedData>(&tb, QosKind::Specific(r2q), NO_LISTENER, NO_STATUS).await {
+        Ok(r) => r,
+        Err(e) => {
+            h.setup_error = Some(format!("create_datareader R2: {e:?}"));
+            return h;
+        }
+    };
+    let matched = wait_until(20_000, 10, || async {
+        w.get_publication_matched_status().await.map(|s| s.current_count == 2).unwrap_or(false)
+            && r1.get_subscription_matched_status().await.map(|s| s.current_count == 1).unwrap_or(false)
+            && r2.get_subscription_matched_status().await.map(|s| s.current_count == 1).unwrap_or(false)
+    })
+    .await;
+    if !matched {
+        h.setup_error = Some("W, R1, R2 did not match within 20 s".into());
+        return h;
+    }
+    exec::sleep_ms(200).await;
+    // reset the changed flags raised during setup
+    let _ = w.get_publication_matched_status().await;
+    let _ = r1.get_subscription_matched_status().await;
+    let _ = r2.get_subscription_matched_status().await;
+    let cond_of = |e: Ent| -> StatusConditionAsync {
+        match e {
+            Ent::R1 => r1.get_statuscondition(),
+            Ent::R2 => r2.get_statuscondition(),
+            Ent::W => w.get_statuscondition(),
+            Ent::S => sub.get_statuscondition(),
+        }
+    };
+    let conds: Vec<StatusConditionAsync> = c.conds.iter().map(|(e, _)| cond_of(*e)).collect();
+    let set_mask = |i: usize, mask: u16| {
+        let mut kinds = mask_kinds(mask & c.conds[i].0.valid_mask());
+        kinds.push(c.conds[i].0.tag());
+        let cond = conds[i].clone();
+        async move { cond.set_enabled_statuses(&kinds).await }
+    };
+    h.t0 = exec::now_ns();
+    for (i, (_, m)) in c.conds.iter().enumerate() {
+        if let Err(e) = set_mask(i, *m).await {
+            h.setup_error = Some(format!("set_enabled_statuses: {e:?}"));
+            return h;
+        }
+        h.events.push((h.t0, Ev::Mask { cond: i as u8, mask: *m & c.conds[i].0.valid_mask() }));
+    }
+    let mut waitsets = vec![];
+    for ws in &c.waitsets {
+        let mut s = WaitSetAsync::new();
+        for i in ws {
+            s.attach_condition(ConditionAsync::StatusCondition(conds[*i as usize].clone())).await.unwrap();
+        }
+        waitsets.push(s);
+    }
+    exec::sleep_ms(1).await;
+    let mut pending: BTreeMap<u8, usize> = BTreeMap::new();
+    let mut handles: Vec<(usize, JoinHandle<Result<Vec<u8>, String>>)> = vec![];
+    let mut w2 = None;
+    let mut r3 = None;
+    let mut r2_held = false;
+    let mut seq = 0u32;
+    let check = async |h: &mut Hist| {
+        let mut values = vec![];
+        for cnd in &conds {
+            values.push(cnd.get_trigger_value().await.ok());
+        }
+        h.events.push((exec::now_ns(), Ev::Check { values }));
+    };
+    check(&mut h).await;
+    for (k, op) in c.ops.iter().enumerate() {
+        // schedule choices for this operation
+        let chunk: Vec<u16> = c.tape.iter().skip(k * CHUNK).take(CHUNK).copied().collect();
+        with_world(|wd| wd.sched_tape = chunk.into());
+        let now = exec::now_ns();
+        let mut settle_ms = 2;
+        match op {
+            Op::StartWait { ws, timeout_ms } => {
+                let wsi = *ws as usize % waitsets.len();
+                if let Some(i) = pending.get(&(wsi as u8)) {
+                    if !handles.iter().any(|(j, hd)| j == i && hd.is_done()) {
+                        continue;
+                    }
+                }
+                let s = waitsets[wsi].clone();
+                let spec = c.conds.clone();
+                let t = *timeout_ms as u64;
+                let hd = exec::spawn(async move {
+                    match timeout(t, s.wait()).await {
+                        Timed::TimedOut => Err("timeout".to_string()),
+                        Timed::Done(Err(e)) => Err(format!("{e:?}")),
+                        Timed::Done(Ok(list)) => {
+                            let mut ids = vec![];
+                            for cnd in list {
+                                let ConditionAsync::StatusCondition(sc) = cnd;
+                                let en: Vec<StatusKind> = match sc.get_enabled_statuses().await {
+                                    Ok(x) => x.into_iter().collect(),
+                                    Err(_) => vec![],
+                                };
+                                ids.push(tag_index(&spec, &en));
+                            }
+                            Ok(ids)
+                        }
+                    }
+                });
+                let idx = h.waits.len();
+                h.waits.push(WaitRec { ws: wsi as u8, start_ns: now, start_idx: h.events.len(), timeout_ms: *timeout_ms, done_ns: None, result: Err("pending".into()) });
+                pending.insert(wsi as u8, idx);
+                handles.push((idx, hd));
+                // no settling: the next operation races with the first steps of this wait
+                continue;
+            }
+            Op::Write => {
+                seq += 1;
+                if let Err(e) = w.write(KeyedData { id: 0, seq, blob: vec![] }, None).await {
+                    h.setup_error = Some(format!("write: {e:?}"));
+                    return h;
+                }
+                h.events.push((now, Ev::Sample));
+                h.events.push((now, Ev::Raise { ent: Ent::R1, st: St::DataAvailable }));
+                h.events.push((now, Ev::Raise { ent: Ent::S, st: St::DataOnReaders }));
+                if r2_held {
+                    h.events.push((now, Ev::Raise { ent: Ent::R2, st: St::SampleRejected }));
+                } else {
+                    r2_held = true;
+                    h.events.push((now, Ev::Raise { ent: Ent::R2, st: St::DataAvailable }));
+                }
+            }
+            Op::CreateW2 => {
+                if w2.is_some() {
+                    continue;
+                }
+                w2 = Some(publ.create_datawriter::<KeyedData>(&ta, QosKind::Specific(wq.clone()), NO_LISTENER, NO_STATUS).await.unwrap());
+                for ent in [Ent::R1, Ent::R2] {
+                    h.events.push((now, Ev::RaiseWithin { ent, st: St::SubscriptionMatched, len_ns: MATCH_NS }));
+                }
+                settle_ms = 70;
+            }
+            Op::DeleteW2 => {
+                let Some(x) = w2.take() else { continue };
+                publ.delete_datawriter(&x).await.unwrap();
+                for ent in [Ent::R1, Ent::R2] {
+                    h.events.push((now, Ev::RaiseWithin { ent, st: St::SubscriptionMatched, len_ns: MATCH_NS }));
+                }
+                settle_ms = 70;
+            }
+            Op::CreateR3 => {
+                if r3.is_some() {
+                    continue;
+                }
+                r3 = Some(sub2.create_datareader::<KeyedData>(&tb, QosKind::Specific(r3q.clone()), NO_LISTENER, NO_STATUS).await.unwrap());
+                h.events.push((now, Ev::RaiseWithin { ent: Ent::W, st: St::PublicationMatched, len_ns: MATCH_NS }));
+                settle_ms = 70;
+            }
+            Op::DeleteR3 => {
+                let Some(x) = r3.take() else { continue };
+                sub2.delete_datareader(&x).await.unwrap();
+                h.events.push((now, Ev::RaiseWithin { ent: Ent::W, st: St::PublicationMatched, len_ns: MATCH_NS }));
+                settle_ms = 70;
+            }
+            Op::SetEnabled { cond, mask } => {
+                let i = *cond as usize % conds.len();
+                let m = *mask & c.conds[i].0.valid_mask();
+                if let Err(e) = set_mask(i, m).await {
+                    h.setup_error = Some(format!("set_enabled_statuses: {e:?}"));
+                    return h;
+                }
+                h.events.push((now, Ev::Mask { cond: i as u8, mask: m }));
+            }
+            Op::Take { r2: second } | Op::Read { r2: second } => {
+                let rd = if *second { &r2 } else { &r1 };
+                let take = matches!(op, Op::Take { .. });
+                let r = if take {
+                    rd.take(100, ANY_SAMPLE_STATE, ANY_VIEW_STATE, ANY_INSTANCE_STATE).await
+                } else {
+                    rd.read(100, ANY_SAMPLE_STATE, ANY_VIEW_STATE, ANY_INSTANCE_STATE).await
+                };
+                match r {
+                    Ok(_) | Err(DdsError::NoData) => {}
+                    Err(e) => {
+                        h.setup_error = Some(format!("read/take: {e:?}"));
+                        return h;
+                    }
+                }
+                if *second && take {
+                    r2_held = false;
+                }
+                h.events.push((now, Ev::Clear { ent: if *second { Ent::R2 } else { Ent::R1 }, st: St::DataAvailable }));
+                h.events.push((now, Ev::Clear { ent: Ent::S, st: St::DataOnReaders }));
+            }
+            Op::GetSubMatched { r2: second } => {
+                let rd = if *second { &r2 } else { &r1 };
+                let _ = rd.get_subscription_matched_status().await;
+                h.events.push((now, Ev::Clear { ent: if *second { Ent::R2 } else { Ent::R1 }, st: St::SubscriptionMatched }));
+            }
+            Op::GetPubMatched => {
+                let _ = w.get_publication_matched_status().await;
+                h.events.push((now, Ev::Clear { ent: Ent::W, st: St::PublicationMatched }));
+            }
+            Op::GetOfferedDeadline => {
+                let _ = w.get_offered_deadline_missed_status().await;
+                h.events.push((now, Ev::Clear { ent: Ent::W, st: St::OfferedDeadlineMissed }));
+            }
+            Op::Advance { ms } => {
+                settle_ms = *ms as u64;
+            }
+        }
+        exec::sleep_ms(settle_ms).await;
+        with_world(|wd| wd.sched_tape.clear());
+        check(&mut h).await;
+    }
+    with_world(|wd| wd.sched_tape.clear());
+    // let every wait finish or time out
+    let latest = h.waits.iter().map(|wt| wt.start_ns + wt.timeout_ms as u64 * MS).max().unwrap_or(0);
+    let now = exec::now_ns();
+    if latest + 5 * MS > now {
+        exec::sleep_ns(latest + 5 * MS - now).await;
+    }
+    for (i, hd) in handles {
+        if let Some(t) = hd.done_at() {
+            h.waits[i].done_ns = Some(t);
+            h.waits[i].result = hd.take().unwrap_or(Err("no result".into()));
+        }
+    }
+    check(&mut h).await;
+    h.end_ns = exec::now_ns();
+    drop((pa, pb, ta, tb, publ, sub, sub2, w2, r3));
+    h
+}
+
+// ------------------------------------------------------------------------------------------
+// reference model
+//
+// Model time is a stamp: (virtual ns << 20) | index of the history event, so that the events of one
+// virtual instant keep their program order (an operation starts at the instant the previous check ran).
+
+type Stamp = u128;
+const IDX_MAX: u128 = (1 << 20) - 1;
+
+fn stamp(t_ns: u64, idx: usize) -> Stamp {
+    ((t_ns as u128) << 20) | (idx as u128).min(IDX_MAX)
+}
+fn ns_of(s: Stamp) -> u64 {
+    (s >> 20) as u64
+}
+
+#[derive(Clone, Copy, Debug, PartialEq, Eq)]
+enum Tri {
+    F,
+    U,
+    T,
+}
+
+struct Window {
+    a: Stamp,
+    b: Stamp,
+    /// the raise may not happen at all (a newer sample arrived within the detection latency)
+    optional: bool,
+}
+
+struct Model {
+    raises: BTreeMap<(Ent, St), Vec<Window>>,
+    clears: BTreeMap<(Ent, St), Vec<Stamp>>,
+    /// per condition: (stamp, mask) in order
+    masks: Vec<Vec<(Stamp, u16)>>,
+    ents: Vec<Ent>,
+}
+
+impl Model {
+    fn build(c: &C32Case, h: &Hist) -> Model {
+        let mut m = Model {
+            raises: BTreeMap::new(),
+            clears: BTreeMap::new(),
+            masks: vec![vec![]; c.conds.len()],
+            ents: c.conds.iter().map(|x| x.0).collect(),
+        };
+        let mut samples = vec![];
+        for (i, (t, ev)) in h.events.iter().enumerate() {
+            let at = stamp(*t, i);
+            match ev {
+                Ev::Raise { ent, st } => m.raises.entry((*ent, *st)).or_default().push(Window { a: at, b: at, optional: false }),
+                Ev::RaiseWithin { ent, st, len_ns } => {
+                    m.raises.entry((*ent, *st)).or_default().push(Window { a: at, b: stamp(*t + len_ns, IDX_MAX as usize), optional: false })
+                }
+                Ev::Clear { ent, st } => m.clears.entry((*ent, *st)).or_default().push(at),
+                Ev::Mask { cond, mask } => m.masks[*cond as usize].push((at, *mask)),
+                Ev::Sample => samples.push(*t),
+                Ev::Check { .. } => {}
+            }
+        }
+        if let Some(p) = c.deadline {
+            let p = p as u64 * 100 * MS;
+            for (j, s) in samples.iter().enumerate() {
+                let next = samples.get(j + 1).copied();
+                let end = next.unwrap_or(h.end_ns + p);
+                let mut b = s + p;
+                while b <= end {
+                    let optional = next.map(|n| n <= b + DETECT_NS).unwrap_or(false);
+                    let wb = match next {
+                        Some(n) if optional => n.max(b),
+                        _ => b + DETECT_NS,
+                    };
+                    for key in [(Ent::W, St::OfferedDeadlineMissed), (Ent::R1, St::RequestedDeadlineMissed)] {
+                        m.raises.entry(key).or_default().push(Window { a: stamp(b, 0), b: stamp(wb, IDX_MAX as usize), optional });
+                    }
+                    b += p;
+                }
+            }
+        }
+        m
+    }
+
+    fn flag(&self, ent: Ent, st: St, t: Stamp) -> Tri {
+        let c = self.clears.get(&(ent, st)).and_then(|v| v.iter().copied().filter(|x| *x <= t).max());
+        let Some(ws) = self.raises.get(&(ent, st)) else { return Tri::F };
+        let after = |x: Stamp| c.map(|c| x > c).unwrap_or(true);
+        let not_before = |x: Stamp| c.map(|c| x >= c).unwrap_or(true);
+        if ws.iter().any(|w| !w.optional && after(w.a) && w.b < t) {
+            return Tri::T;
+        }
+        if ws.iter().any(|w| not_before(w.b) && w.a <= t) {
+            return Tri::U;
+        }
+        Tri::F
+    }
+
+    fn mask_at(&self, cond: usize, t: Stamp) -> u16 {
+        self.masks[cond].iter().filter(|(x, _)| *x <= t).next_back().map(|x| x.1).unwrap_or(0)
+    }
+
+    fn trigger(&self, cond: usize, t: Stamp) -> Tri {
+        let ent = self.ents[cond];
+        let mask = self.mask_at(cond, t);
+        let mut r = Tri::F;
+        for st in ent.statuses() {
+            if mask & st.bit() != 0 {
+                match self.flag(ent, *st, t) {
+                    Tri::T => return Tri::T,
+                    Tri::U => r = Tri::U,
+                    Tri::F => {}
+                }
+            }
+        }
+        r
+    }
+
+    /// all stamps at which something may change
+    fn instants(&self, h: &Hist) -> Vec<Stamp> {
+        let mut s: BTreeSet<Stamp> = BTreeSet::new();
+        for ws in self.raises.values() {
+            for w in ws {
+                s.insert(w.a);
+                s.insert(w.b);
+                s.insert(w.b + 1);
+            }
+        }
+        for cs in self.clears.values() {
+            s.extend(cs.iter().copied());
+        }
+        for ms in &self.masks {
+            s.extend(ms.iter().map(|x| x.0));
+        }
+        for w in &h.waits {
+            s.insert(stamp(w.start_ns, w.start_idx));
+            s.insert(stamp(w.start_ns + w.timeout_ms as u64 * MS, 0));
+            if let Some(d) = w.done_ns {
+                s.insert(stamp(d, 0));
+                s.insert(stamp(d, IDX_MAX as usize));
+            }
+        }
+        s.insert(stamp(h.t0, 0));
+        s.insert(stamp(h.end_ns + 1, 0));
+        s.into_iter().collect()
+    }
+}
+
+fn oracle(c: &C32Case, h: &Hist, res: &mut CaseResult) {
+    if let Some(e) = &h.setup_error {
+        res.harness_error = Some(e.clone());
+        return;
+    }
+    let m = Model::build(c, h);
+    let rel = |t: u64| (t as i64 - h.t0 as i64) / MS as i64;
+    let mut fails: Vec<(String, String)> = vec![];
+    // ---- trigger values read back after every operation
+    let (mut definite, mut uncertain) = (0u32, 0u32);
+    for (idx, (t, ev)) in h.events.iter().enumerate() {
+        let Ev::Check { values } = ev else { continue };
+        let at = stamp(*t, idx);
+        for (i, v) in values.iter().enumerate() {
+            let Some(v) = v else {
+                fails.push(("C32:trigger-value:error".into(), format!("get_trigger_value failed at {} ms", rel(*t))));
+                continue;
+            };
+            let ent = c.conds[i].0;
+            let mask = m.mask_at(i, at);
+            let enabled: Vec<&str> = ent.statuses().iter().filter(|s| mask & s.bit() != 0).map(|s| s.name()).collect();
+            match m.trigger(i, at) {
+                Tri::U => uncertain += 1,
+                Tri::T if !*v => {
+                    definite += 1;
+                    let sts: Vec<&str> = ent.statuses().iter().filter(|s| mask & s.bit() != 0 && m.flag(ent, **s, at) == Tri::T).map(|s| s.name()).collect();
+                    fails.push((
+                        format!("C32:trigger-value:{}:false-although-enabled-status-changed", ent.name()),
+                        format!("at {} ms get_trigger_value of the {:?} condition (enabled: {:?}) is false although {:?} changed and was not read since", rel(*t), ent, enabled, sts),
+                    ));
+                }
+                Tri::F if *v => {
+                    definite += 1;
+                    let earlier: Vec<&str> = ent
+                        .statuses()
+                        .iter()
+                        .filter(|s| mask & s.bit() != 0 && m.raises.get(&(ent, **s)).map(|w| w.iter().any(|w| w.a <= at)).unwrap_or(false))
+                        .map(|s| s.name())
+                        .collect();
+                    fails.push((
+                        format!("C32:trigger-value:{}:true-although-nothing-changed-since-read", ent.name()),
+                        format!(
+                            "at {} ms get_trigger_value of the {:?} condition is true although none of its enabled statuses {:?} changed since it was last read (enabled statuses that changed earlier and were read since: {:?})",
+                            rel(*t), ent, enabled, earlier
+                        ),
+                    ));
+                }
+                _ => definite += 1,
+            }
+        }
+    }
+    // ---- waits
+    let inst = m.instants(h);
+    // evaluation points: every stamp and the midpoint of every gap between consecutive stamps
+    let mut points: Vec<(Stamp, bool)> = vec![];
+    for (i, t) in inst.iter().enumerate() {
+        points.push((*t, false));
+        if let Some(n) = inst.get(i + 1) {
+            if *n > *t + 1 {
+                points.push((*t + (*n - *t) / 2, true));
+            }
+        }
+    }
+    let mut pending_when_changed = false;
+    for w in &h.waits {
+        let attached: &Vec<u8> = &c.waitsets[w.ws as usize];
+        let s = stamp(w.start_ns, w.start_idx);
+        let deadline_ns = w.start_ns + w.timeout_ms as u64 * MS;
+        let deadline = stamp(deadline_ns, 0);
+        let end = stamp(w.done_ns.unwrap_or(deadline_ns).min(deadline_ns), IDX_MAX as usize);
+        let any = |t: Stamp| -> Tri {
+            let mut r = Tri::F;
+            for i in attached {
+                match m.trigger(*i as usize, t) {
+                    Tri::T => return Tri::T,
+                    Tri::U => r = Tri::U,
+                    Tri::F => {}
+                }
+            }
+            r
+        };
+        // non-triviality: a status was raised or a mask changed while this wait was pending
+        let changed_during = m.raises.values().flatten().any(|x| x.b >= s && x.a <= end)
+            || m.masks.iter().enumerate().any(|(i, ms)| attached.contains(&(i as u8)) && ms.iter().any(|x| x.0 >= s && x.0 <= end));
+        if changed_during {
+            pending_when_changed = true;
+            res.class("wait_pending_during_change");
+        }
+        // (a) the first stretch of model time inside the wait's lifetime, spanning more than one virtual
+        // instant, during which some attached condition is definitely triggered: the wait must have returned
+        // at the instant the stretch begins (virtual time only advances when every runnable task, including
+        // a notified waiter, has run to completion)
+        let mut must_by: Option<Stamp> = None;
+        for (k, (p, mid)) in points.iter().enumerate() {
+            if !*mid || *p <= s || *p >= deadline {
+                continue;
+            }
+            if any(*p) == Tri::T {
+                let start = points[..k].iter().rev().find(|x| !x.1).map(|x| x.0).unwrap_or(s).max(s);
+                let stop = points[k + 1..].iter().find(|x| !x.1).map(|x| x.0).unwrap_or(deadline).min(deadline);
+                if ns_of(stop) > ns_of(start) {
+                    must_by = Some(start);
+                    break;
+                }
+            }
+        }
+        let what_wait = format!(
+            "wait({} ms) on wait set {} (conditions {:?}) started at {} ms",
+            w.timeout_ms,
+            w.ws,
+            attached.iter().map(|i| format!("{:?}", c.conds[*i as usize].0)).collect::<Vec<_>>(),
+            rel(w.start_ns)
+        );
+        // a return while no attached condition was even possibly triggered at any time since the call
+        if let (Ok(_), Some(d)) = (&w.result, w.done_ns) {
+            let dd = stamp(d, IDX_MAX as usize);
+            let possibly = points.iter().map(|x| x.0).chain([s, dd]).any(|p| p >= s && p <= dd && any(p) != Tri::F);
+            if !possibly {
+                fails.push((
+                    "C32:wait:spurious-return".into(),
+                    format!("{what_wait} returned at {} ms although no attached condition was triggered at any time during the wait", rel(d)),
+                ));
+                continue;
+            }
+        }
+        match (&w.result, must_by) {
+            (Err(e), _) if e != "timeout" && e != "pending" => {
+                fails.push(("C32:wait:error".into(), format!("{what_wait} failed: {e}")));
+            }
+            (r, Some(by)) => {
+                let done = w.done_ns.unwrap_or(u64::MAX);
+                if r.is_err() || done > ns_of(by) {
+                    // cause: triggered from the start, a mask change at that stamp, or a raise
+                    let shape = if by == s && any(s - 1) == Tri::T {
+                        "already-triggered-when-called"
+                    } else if m.masks.iter().enumerate().any(|(i, ms)| attached.contains(&(i as u8)) && ms.iter().any(|x| x.0 == by)) {
+                        "after-enabling-an-already-changed-status"
+                    } else {
+                        "after-status-raised"
+                    };
+                    fails.push((
+                        format!("C32:wait-lost-wakeup:{shape}"),
+                        format!(
+                            "{what_wait}: from {} ms on an attached condition is triggered (reference model), yet the wait {}",
+                            rel(ns_of(by)),
+                            match (&w.result, w.done_ns) {
+                                (Ok(_), Some(d)) => format!("only returned at {} ms", rel(d)),
+                                _ => format!("stayed blocked until its timeout at {} ms", rel(deadline_ns)),
+                            }
+                        ),
+                    ));
+                    res.class("wait_should_have_woken");
+                    continue;
+                }
+                res.class("wait_woken");
+            }
+            (Ok(_), None) => {
+                res.class("wait_returned_in_uncertain_window");
+            }
+            (Err(_), None) => {
+                res.class("wait_timed_out");
+                if let Some(d) = w.done_ns {
+                    if d != deadline_ns {
+                        fails.push(("C32:wait:timeout-instant".into(), format!("{what_wait} reported a timeout at {} ms", rel(d))));
+                    }
+                }
+            }
+        }
+        // (b) returned set == triggered attached conditions at the instant of return
+        if let (Ok(ids), Some(d)) = (&w.result, w.done_ns) {
+            // values a condition's trigger may have had during the virtual instant d
+            let lo = stamp(d, 0).max(s);
+            let hi = stamp(d, IDX_MAX as usize);
+            let around: Vec<Stamp> = points.iter().map(|x| x.0).filter(|p| *p >= lo && *p <= hi).chain([lo, lo.saturating_sub(1).max(s), hi, hi + 1]).collect();
+            for i in attached {
+                let vals: Vec<Tri> = around.iter().map(|p| m.trigger(*i as usize, *p)).collect();
+                let returned = ids.contains(i);
+                if returned && vals.iter().all(|v| *v == Tri::F) {
+                    fails.push((
+                        "C32:wait-result:contains-untriggered-condition".into(),
+                        format!("{what_wait} returned at {} ms with the {:?} condition, whose trigger value is false", rel(d), c.conds[*i as usize].0),
+                    ));
+                }
+                if !returned && vals.iter().all(|v| *v == Tri::T) {
+                    fails.push((
+                        "C32:wait-result:missing-triggered-condition".into(),
+                        format!("{what_wait} returned at {} ms without the {:?} condition, which is attached and triggered", rel(d), c.conds[*i as usize].0),
+                    ));
+                }
+            }
+            if ids.iter().any(|i| !attached.contains(i)) {
+                fails.push((
+                    "C32:wait-result:unknown-condition".into(),
+                    format!("{what_wait} returned a condition that is not attached to this wait set (identified by its enabled statuses): {ids:?}"),
+                ));
+            }
+        }
+    }
+    // ---- classes
+    res.class(format!("conditions:{}", c.conds.len()));
+    res.class(format!("waitsets:{}", c.waitsets.len()));
+    for (e, _) in &c.conds {
+        res.class(format!("cond:{e:?}"));
+    }
+    if c.deadline.is_some() {
+        res.class("deadline");
+    }
+    if h.waits.is_empty() {
+        res.class("no_wait");
+    }
+    if uncertain > 0 {
+        res.class("uncertain_trigger_check");
+    }
+    if h.events.iter().any(|e| matches!(e.1, Ev::Mask { .. }) && e.0 > h.t0) {
+        res.class("set_enabled");
+    }
+    res.nontrivial = pending_when_changed;
+    res.info = json!({
+        "definite_trigger_checks": definite,
+        "uncertain_trigger_checks": uncertain,
+        "waits": h.waits.iter().map(|w| json!({"ws": w.ws, "start_ms": rel(w.start_ns), "timeout_ms": w.timeout_ms, "done_ms": w.done_ns.map(rel), "result": format!("{:?}", w.result)})).collect::<Vec<_>>(),
+    });
+    choose_verdict("C32", res, fails);
+}
+
+pub fn eval(case: &C32Case) -> CaseResult {
+    let mut res = CaseResult::default();
+    match exec::run(scenario(case.clone())) {
+        Ok(h) => oracle(case, &h, &mut res),
+        Err(a) => apply_abort("C32", &mut res, a),
+    }
+    res.sim = sim_stats();
+    res
+}
+
+pub fn main(ctx: &Ctx) {
+    let thorough = ctx.tier == vcore::Tier::Thorough;
+    campaign(
+        ctx,
+        Campaign {
+            total_cases: ctx.pick(1_000, 40_000),
+            max_shrink_iters: 300,
+            limits: Limits { cpu_s: 30, wall_s: 120, as_bytes: 4 << 30 },
+            meta: Meta {
+                rule: "1-3 status conditions of {reliable reader R1, best-effort reader R2 with max_samples 1, writer W, subscriber S} with generated enabled masks, attached to 1-2 wait sets; generated sequences of wait(timeout) calls (concurrent tasks), writes (DATA_AVAILABLE / DATA_ON_READERS / SAMPLE_REJECTED), matching endpoint creation/deletion (SUBSCRIPTION/PUBLICATION_MATCHED), deadline misses through time advances, set_enabled_statuses, and clearing reads (take/read, get_*_matched_status, get_offered_deadline_missed_status); the run queue is permuted by a schedule tape (16 choices per operation); non-trivial = some wait was pending while a status was raised or an attached condition's mask was changed; distinct = hash of the case",
+                assumptions: &[
+                    "changed-flag model from DDS 1.4 2.2.4.1: DATA_AVAILABLE is reset by read/take on the reader; DATA_ON_READERS by read/take on any reader of the subscriber; matched and deadline statuses by their get_*_status operation; REQUESTED_DEADLINE_MISSED and SAMPLE_REJECTED are never read (their getters are unimplemented) and therefore stay changed",
+                    "raise instants: data arrival at the write instant (perfect network); discovery within 60 ms; deadline detection within 51 ms of the boundary; inside such an interval the flag is 'unknown' and not judged",
+                    "operations of the application task are separated by >= 2 ms of virtual time (except wait starts), so the model is sequential; only wait calls run concurrently with them",
+                    "lost wake-up = a wait still blocked after virtual time advanced past an instant from which an attached condition is definitely triggered (virtual time only advances when no task is runnable)",
+                    "a wait that returns while a trigger value is changing at that very instant may return either set (including an empty one)",
+                    "conditions returned by wait are identified through a per-entity tag status in their enabled mask (StatusCondition::get_entity is unimplemented)",
+                ],
+                nontrivial_floor: 100,
+            },
+        },
+        strategy(thorough),
+        eval,
+    );
 }
